@@ -244,10 +244,23 @@ def control(rng):
     return items
 
 
+ADDR_ALPHABET = ['a', 'B', '1', ' ', ' ', '.', '@', '<', '>', '(', ')', '"', ',', ';', ':', '[', ']', '\\', '\t', "'", '-', '_', '\xe9', '\n', '\r']
+
+
 def maint(rng):
-    names = ['John Doe', 'J. R. Hacker', 'a', 'Debian QA Group', "O'Neil", 'x_y z', 'John  Doe', 'John (c)', 'J, D', 'Jöhn', '', ' a', 'a ']
-    addrs = ['j@x.org', 'a.b@c.d.e', 'packages@qa.debian.org', 'a@b', 'a', 'a b@c', 'a@b@c', '.a@b', 'a@b.']
-    return [rng.choice(names), rng.choice(addrs)]
+    names = ['John Doe', 'J. R. Hacker', 'a', 'Debian QA Group', "O'Neil", 'x_y z', 'John  Doe', 'John (c)', 'J, D', 'Jöhn', '', ' a', 'a ',
+             '"Doe, John"', 'a (c) b', '(c)', 'x@y', 'a.b', 'a:b;', 'Group: a@b;', '\\"q', 'a\\(b']
+    addrs = ['j@x.org', 'a.b@c.d.e', 'packages@qa.debian.org', 'a@b', 'a', 'a b@c', 'a@b@c', '.a@b', 'a@b.', '@r:a@b', '"q"@x', 'a@[1.2]', '', '(c)a@b', 'a@b(c)',
+             'a@b>x', 'a(b(c)d)@e', '"a\\"b"@c']
+    r = rng.random()
+    if r < 0.5:
+        return [rng.choice(names), rng.choice(addrs)]
+    # adversarial: random strings over the characters the address parser looks at
+    n = ''.join(rng.choice(ADDR_ALPHABET) for _ in range(rng.randint(0, 10)))
+    a = ''.join(rng.choice(ADDR_ALPHABET) for _ in range(rng.randint(0, 10)))
+    if r < 0.75:
+        return [n, a]
+    return [rng.choice(names), a] if r < 0.88 else [n, rng.choice(addrs)]
 
 
 def text_routes(rng, n):
@@ -279,4 +292,4 @@ def streams(tier, rng):
     n = 5000 if tier == 'quick' else 100000
     yield {'name': 'histories-random', 'op': 'C19', 'cases': ([route(rng), [op(rng) for _ in range(rng.randint(0, 12))]] for _ in range(n))}
     yield {'name': 'control-paragraphs', 'op': 'C19t', 'cases': (control(rng) for _ in range(n // 2))}
-    yield {'name': 'maintainers', 'op': 'C19m', 'cases': (maint(rng) for _ in range(n // 5))}
+    yield {'name': 'maintainers', 'op': 'C19m', 'cases': (maint(rng) for _ in range(n))}
